@@ -190,8 +190,12 @@ func verifH_C17_schema_nested() {
 		}
 	case 4:
 		src.Discriminator = verifStr("discr", 1)
-		if verifChoose("nullable", 2) == 1 {
+		// x-nullable absent, true, or an explicit false
+		switch verifChoose("nullable", 3) {
+		case 1:
 			src.Extensions = map[string]any{"x-nullable": true}
+		case 2:
+			src.Extensions = map[string]any{"x-nullable": false}
 		}
 	}
 	v3 := ToV3SchemaRef(&openapi2.SchemaRef{Value: src})
@@ -234,7 +238,7 @@ func verifH_C17_schema_nested() {
 		}
 	case 4:
 		verifAssert(v3.Value.Discriminator != nil && v3.Value.Discriminator.PropertyName == src.Discriminator, "C17 nested: discriminator becomes discriminator.propertyName")
-		verifAssert(v3.Value.Nullable == (src.Extensions != nil), "C17 nested: x-nullable becomes nullable")
+		verifAssert(v3.Value.Nullable == (src.Extensions != nil && src.Extensions["x-nullable"] == true), "C17 nested: x-nullable becomes nullable with its value (an explicit false stays not nullable)")
 	}
 	// and back
 	back, _ := FromV3SchemaRef(v3, &openapi3.Components{})
